@@ -292,6 +292,45 @@ fn handle(vm: &mut Option<Vm>, line: &str) -> String {
             format!("OK {} {} {}", status, done, hex(&state::dump_vm(&mut v)))
         }
         #[cfg(feature = "hooks")]
+        "script" => {
+            // <state> op op ... : run:<count> (0 = run to completion) | setip:<lambda>:<offset> | gc
+            // answers one summary per op and the final state
+            let sx = state::parse_sx(&unhex_arg(parts[1]));
+            let mut v = state::build_vm(&sx);
+            let mut out = String::from("OK");
+            for op in &parts[2..] {
+                let f: Vec<&str> = op.split(':').collect();
+                match f[0] {
+                    "run" => {
+                        let n: usize = f[1].parse().unwrap();
+                        let before = state::dump_vm(&mut v);
+                        let r = v.run_count(if n == 0 { usize::MAX } else { n });
+                        let rs = match r {
+                            Ok(Some(c)) => format!("VALUE:{}", hex(&canon(&c))),
+                            Ok(None) => {
+                                if state::dump_vm(&mut v) == before {
+                                    "NONE-NOPROGRESS".into()
+                                } else {
+                                    "NONE".into()
+                                }
+                            }
+                            Err(e) => format!("ERR:{}", hex(&format!("{:?}", e))),
+                        };
+                        let frames = v.last_stacktrace().map(|t| t.frames.len() as i64).unwrap_or(-1);
+                        let (_, ep, _, bp) = v.verif_regs();
+                        out.push_str(&format!(" {}/frames={}/sp={}/bp={}/ep={}", rs, frames, v.verif_stack().get_sp(), bp, ep));
+                    }
+                    "setip" => {
+                        let (acc, ep, _, bp) = v.verif_regs();
+                        v.verif_set_regs(acc, ep, (f[1].parse().unwrap(), f[2].parse().unwrap()), bp);
+                    }
+                    "gc" => v.run_gc(),
+                    _ => out.push_str(" BADOP"),
+                }
+            }
+            format!("{} {}", out, hex(&state::dump_vm(&mut v)))
+        }
+        #[cfg(feature = "hooks")]
         "runcount" => {
             // Vm::run_count(count) on a fabricated state
             let sx = state::parse_sx(&unhex_arg(parts[1]));
